@@ -80,6 +80,13 @@ def make(bootstrap):
             bump("digest")
             return self.bal + 1
 
+        aw: int  # ANNOTATED (managed) derived attribute whose dependency is given as a bare string (seeded change C11-E)
+
+        @spec_property(cache=True, invalidated_by="xs")
+        def aw(self):
+            bump("aw")
+            return len(self.xs) * 7
+
         @spec_property(cache=True, invalidated_by=["um"])
         def pu(self):  # depends on an unmanaged attribute
             bump("pu")
@@ -102,14 +109,14 @@ def make(bootstrap):
 
 
 FAM = {"eager": make(True), "lazy": make(False)}
-DERIVED = ["p", "q", "star", "sx", "end", "pu", "po", "digest"]
+DERIVED = ["p", "q", "star", "sx", "end", "pu", "po", "digest", "aw"]
 
 
 def expected(m, cname):
     x, w, xs = m.x, m.w, m.xs
     um = m.__dict__.get("um", 0)
     nd = getattr(m, "nd", 0)
-    d = {"p": x * 2, "q": x * 2 + 1, "star": x + w + nd, "sx": len(xs), "end": x + 101, "pu": um * 3, "po": x * 3, "digest": m.bal + 1}
+    d = {"p": x * 2, "q": x * 2 + 1, "star": x + w + nd, "sx": len(xs), "end": x + 101, "pu": um * 3, "po": x * 3, "digest": m.bal + 1, "aw": len(xs) * 7}
     if cname == "GS":
         d["r"] = w * 5
     return d
@@ -129,7 +136,7 @@ def make_h(fam, cname, mut):
         derived = DERIVED + (["r"] if cname == "GS" else [])
         o.nd = 4
         o.audit = "checked"  # assigned value of an attribute invalidated_by bal
-        for bit, name in ((rp, "p"), (rq, "q"), (rs, "star"), (rsx, "sx"), (rend, "end"), (rpu, "pu"), (rp, "po"), (rq, "digest")):
+        for bit, name in ((rp, "p"), (rq, "q"), (rs, "star"), (rsx, "sx"), (rend, "end"), (rpu, "pu"), (rp, "po"), (rq, "digest"), (rsx, "aw")):
             if bit:
                 getattr(o, name)  # fills the cache
         if cname == "GS" and rp:
@@ -242,7 +249,7 @@ def make_h(fam, cname, mut):
             check(m.audit == "", "an attribute declared invalidated_by is back at its default", f"{tag}/audit-not-reset")
         elif mut != "reset_all":
             check(m.audit == "checked", "mutating unrelated attributes discards nothing", f"{tag}/audit-discarded")
-        deps = {"p": {"x"}, "q": {"x"}, "sx": {"xs"}, "end": {"x"}, "pu": {"um"}, "r": {"w"}, "po": {"x"}, "digest": {"bal"}}
+        deps = {"p": {"x"}, "q": {"x"}, "sx": {"xs"}, "end": {"x"}, "pu": {"um"}, "r": {"w"}, "po": {"x"}, "digest": {"bal"}, "aw": {"xs"}}
         if inplace and mut != "reset_all":
             for n, dd in deps.items():
                 if n in derived and cached_before[n] and not (dd & changed):
